@@ -457,6 +457,9 @@ func specParse(n *Node, cfg SpecCfg, in any, dst reflect.Value, path string, loc
 		}
 		dst.Set(reflect.ValueOf(in))
 		out.ran(n, 999)
+		if n.CustomFn == "normalize" {
+			ApplyCustomNorm(dst)
+		}
 		if !EvalFunc(n.CustomFn, dst) {
 			ts := TestSpec{Name: "func", Opts: Opts{Code: "custom_fail"}}
 			if len(n.Tests) == 1 {
@@ -656,6 +659,9 @@ func specValidate(n *Node, cfg SpecCfg, dst reflect.Value, path string, loc []st
 		specValidate(n.Elem, cfg, dst.Elem(), path, locAdd(loc, "P"), out)
 	case n.Kind == KCustom:
 		out.ran(n, 999)
+		if n.CustomFn == "normalize" {
+			ApplyCustomNorm(dst)
+		}
 		if !EvalFunc(n.CustomFn, dst) {
 			ts := TestSpec{Name: "func", Opts: Opts{Code: "custom_fail"}}
 			if len(n.Tests) == 1 {
